@@ -402,7 +402,11 @@ func (fr *frame) execInstr(in ssa.Instruction, st *State) {
 			st.pc, st.heaps = m.pc, m.heaps
 		}
 	case *ssa.Send:
-		// channel send: no effect on the modelled state
+		// channel send: no effect on the modelled state; it is visible to the
+		// ghost call trace as a call of "chan-send:<operand>"
+		name := "chan-send:" + operandName(x.Chan)
+		fr.atCall(name, st, x.Pos(), nil, nil, nil)
+		c.traceCall(name, st)
 	case *ssa.Select:
 		var ts []T
 		ts = append(ts, c.fresh("sel_idx", "Int"), c.fresh("sel_ok", "Bool"))
@@ -513,6 +517,12 @@ func (fr *frame) execUnOp(x *ssa.UnOp, st *State) {
 		if r.Sort == "Iface" {
 			c.ifaceLoads = append(c.ifaceLoads, r)
 			c.assumeJSON(st, r, x.Type())
+			if g, ok := x.X.(*ssa.Global); ok && strings.HasPrefix(g.Name(), "Err") && types.Identical(x.Type(), errorType) && c.onlyInitStores(g) {
+				// package-level sentinel errors (var ErrX = errors.New(...)) are
+				// assigned once in the package initialiser and are non-nil
+				c.assume(st, Not(IsNilIface(r)))
+				c.Defaults["package-level sentinel errors Err* are non-nil (assigned only by the package initialiser)"] = true
+			}
 		}
 	case token.NOT:
 		fr.setVal(x, Not(v))
@@ -1056,4 +1066,33 @@ func storesTo(a ssa.Value) []ssa.Instruction {
 		}
 	}
 	return out
+}
+
+// onlyInitStores: the global is written only by package initialisers.
+func (c *Ctx) onlyInitStores(g *ssa.Global) bool {
+	for _, fn := range c.W.Funcs {
+		if g.Pkg == nil || PkgOfFunc(fn) != g.Pkg.Pkg {
+			continue
+		}
+		if !storesGlobal(fn, g, fn.Name() == "init" || strings.HasPrefix(fn.Name(), "init#")) {
+			return false
+		}
+	}
+	return true
+}
+
+func storesGlobal(fn *ssa.Function, g *ssa.Global, isInit bool) bool {
+	for _, b := range fn.Blocks {
+		for _, in := range b.Instrs {
+			if st, ok := in.(*ssa.Store); ok && st.Addr == ssa.Value(g) && !isInit {
+				return false
+			}
+		}
+	}
+	for _, a := range fn.AnonFuncs {
+		if !storesGlobal(a, g, isInit) {
+			return false
+		}
+	}
+	return true
 }
